@@ -470,6 +470,21 @@ class StmtMixin(object):
             self.path.event("yield_seq", it.seq)
             self.poison_assigned([node], env, "loop variable of a re-yield loop")
             return
+        forced = getattr(self.frame, "forced_iter", None) if self.frame is not None else None
+        if forced is not None:
+            k = self.frame.loop_ordinals.get(id(node))
+            if k in forced:
+                val = forced[k]
+                if isinstance(it, RangeVal):
+                    self.frame.forced_conds.append(z3.And(z3num(it.start) <= z3num(val), z3num(val) < z3num(it.stop)))
+                else:
+                    raise OutOfSubset("forced iteration over %r" % (it,))
+                self.assign(node.target, val, env)
+                try:
+                    self.exec_block(node.body, env)
+                except ContinueEx:
+                    pass
+                return
         if spec is not None and spec.summarise == "stateless":
             return self.for_stateless(node, env, it, spec)
         if spec is not None and spec.invariants:
